@@ -57,7 +57,9 @@ func (w *world) p(id thor.Bytes32) pathT {
 	if p, ok := w.path[id]; ok {
 		return p
 	}
-	panic("unknown block")
+	// a block that is not part of the stream (e.g. an own block that differs from the uninterrupted node's): the
+	// trace specification rejects the event that names it
+	return pathT{{"unknown", false}}
 }
 
 func devnull() func() {
@@ -151,13 +153,15 @@ func buildStream(seed int64, blocks int) *world {
 	for len(trunk) <= blocks {
 		parent := trunk[len(trunk)-1]
 		num := parent.Header().Number() + 1
-		who := int(num) % 3 // three of the four validators sign the trunk: > 2/3 of 4
+		// validators 1..3 sign the received blocks (> 2/3 of 4); validator 0 is the node under test: every block with
+		// its signature is one it packed itself, so that its in-memory casts are what a real node's would be
+		who := 1 + int(num)%3
 		if rng.Intn(6) == 0 {
-			who = 3
+			who = 1 + rng.Intn(3)
 		}
 		com := num >= 2*E && rng.Intn(8) != 0
 		if wedge {
-			who = int(num) % 3
+			who = 1 + int(num)%3
 			com = num >= 6*E
 		}
 		blk := mint(parent, who, com, rng.Intn(2) == 0)
@@ -168,11 +172,11 @@ func buildStream(seed int64, blocks int) *world {
 		w.stream = append(w.stream, blk)
 		// forks: a sibling of the new block (same parent, another signer), sometimes extended, delivered now or late
 		if !wedge && rng.Intn(4) == 0 {
-			sw := (who + 1 + rng.Intn(3)) % 4
+			sw := 1 + (who+rng.Intn(2))%3 // another one of 1..3
 			if s := mint(parent, sw, rng.Intn(2) == 0, rng.Intn(2) == 0); s != nil {
 				side := []*block.Block{s}
 				if rng.Intn(2) == 0 {
-					if s2 := mint(s, (sw+1)%4, rng.Intn(2) == 0, false); s2 != nil {
+					if s2 := mint(s, 1+sw%3, rng.Intn(2) == 0, false); s2 != nil {
 						side = append(side, s2)
 					}
 				}
